@@ -414,8 +414,13 @@ func DrawHistory(r *Rng, cfg HistConfig) (*Scenario, *histWorld) {
 			pi := r.Intn(len(m.Pkgs))
 			w.edits++
 			name := Pick(r, []string{"old", "gone", "defaulter"})
+			lineDir := ""
+			if r.P(0.35) {
+				// written by a template tool: positions in it report the template, the file is where it is
+				lineDir = "//line " + name + ".go.tmpl:1\n"
+			}
 			ops = append(ops, Op{Kind: "edit", Note: "stale output", Path: w.pkgFile(pi, base+"."+name+".go"),
-				Content: fmt.Sprintf("package %s\n\nvar Stale_%s_%d = 1\n", m.Pkgs[pi].Name, name, w.edits)})
+				Content: fmt.Sprintf("%spackage %s\n\nvar Stale_%s_%d = 1\n", lineDir, m.Pkgs[pi].Name, name, w.edits)})
 		case hit("sumops", cfg.PSumOps):
 			if r.P(0.3) {
 				ops = append(ops, Op{Kind: "delsum"})
